@@ -18,6 +18,17 @@ def install(path, hook):
         s += '\n'
     open(path, 'w').write(s + TEMPLATE % hook)
     print('hooked', path, hook)
+def register(path, hook):
+    import json, os, re
+    reg = os.path.join(os.path.dirname(os.path.abspath(__file__)), '..', 'units', 'hooks.json')
+    d = json.load(open(reg))
+    if any(h['hook'] == hook for h in d['hooks']):
+        return
+    crate = re.match(r'crates/([^/]+)/', path).group(1)
+    d['hooks'].append(dict(hook=hook, crate=crate, file=path))
+    open(reg, 'w').write('{"hooks": [\n' + ',\n'.join(' ' + json.dumps(h) for h in d['hooks']) + '\n]}\n')
 if __name__ == '__main__':
+    # usage (cwd=/repo): hook.py install <repo-relative file> <hook name>
     if sys.argv[1] == 'install':
         install(sys.argv[2], sys.argv[3])
+        register(sys.argv[2], sys.argv[3])
